@@ -51,16 +51,18 @@ class C13Machine(RuleBasedStateMachine):
         self.ex.fd_close(fd)
         return fd
 
-    @rule(fd=closed, fn=st.sampled_from(wasifs.FsExecutor.BAD_CALLS), unstable=st.booleans(), absolute=st.booleans())
-    def use_closed(self, fd, fn, unstable, absolute):
+    @rule(fd=closed, fn=st.sampled_from(wasifs.FsExecutor.BAD_CALLS), unstable=st.booleans(), absolute=st.booleans(),
+          extreme=st.sampled_from([0, 0, 0, 1, 2, 3, 4, 5, 6]))
+    def use_closed(self, fd, fn, unstable, absolute, extreme):
         self.ex.flags.add('double_close' if fn == 'fd_close' else ('closed_as_directory' if fn in DIR_CALLS else 'use_after_close'))
-        self.ex.bad_fd_call(fn, fd, unstable, absolute)
+        self.ex.bad_fd_call(fn, fd, unstable, absolute, extreme)
 
     @rule(fd=st.one_of(st.integers(40, 400), st.sampled_from([0x7fffffff, 0x80000000, 0xffffffff, 0xfffffffe, 1 << 20])),
-          fn=st.sampled_from(wasifs.FsExecutor.BAD_CALLS), unstable=st.booleans(), absolute=st.booleans())
-    def use_never_issued(self, fd, fn, unstable, absolute):
+          fn=st.sampled_from(wasifs.FsExecutor.BAD_CALLS), unstable=st.booleans(), absolute=st.booleans(),
+          extreme=st.sampled_from([0, 0, 0, 1, 2, 3, 4, 5, 6]))
+    def use_never_issued(self, fd, fn, unstable, absolute, extreme):
         self.ex.flags.add('never_issued')
-        self.ex.bad_fd_call(fn, fd, unstable, absolute)
+        self.ex.bad_fd_call(fn, fd, unstable, absolute, extreme)
 
     @rule(delta=st.integers(0, 3), fn=st.sampled_from(wasifs.FsExecutor.BAD_CALLS), unstable=st.booleans())
     def use_next_unissued(self, delta, fn, unstable):
